@@ -45,8 +45,10 @@ def _watch(ev, pred):
     ev.watch = pred
 
 
-def _recs(ev, path, args):
-    return ev.collect_ifs(path, args)
+def _recs(ev, path, args, follow=None):
+    """records of one function; calls to local helper functions selected by `follow` are expanded in place
+    (the rules speak about events, not about how the code is split into functions)"""
+    return ev.collect_ifs(path, args, follow=follow)
 
 
 def run(ctx, rep):
@@ -211,7 +213,7 @@ def r141(ctx, rep, f, ev, cg, reach):
 
     # --- the counters themselves
     for m, fld, var in (("rdh_seen", "rdhs_seen", "RDHSeen"), ("rdh_filtered", "rdhs_filtered", "RDHFiltered")):
-        recs = _recs(ev, ST + m, [Sym("self")])
+        recs = _recs(ev, ST + m, [Sym("self")], follow=lambda c: c.startswith(ST))
         asg = [(o["assign"], tuple(o["guard"])) for o in recs if "assign" in o]
         snd = [(o["args"][1], tuple(o["guard"])) for o in recs if "call" in o and o["call"].endswith("::send")]
         g = ("Eq(sym(self.%s),0xffffffff)" % fld,)
@@ -220,14 +222,14 @@ def r141(ctx, rep, f, ev, cg, reach):
                   "%s: assignments %s sends %s" % (m, asg, snd))
     # growth by more than one must not rely on an equality guard (contradiction pattern; F11)
     for p_ in sorted(q for q in f.fns if q.startswith(ST)):
-        recs = _recs(ev, p_, [Sym("self"), Sym("x")])
+        recs = _recs(ev, p_, [Sym("self"), Sym("x")], follow=lambda c: c.startswith(ST))
         adds = [o for o in recs if "assign" in o and o["assign"][0] == "AddAssign" and o["assign"][2] not in ("0x1",)]
         eqs = [ckey(o["cond"]) for o in recs if "cond" in o and ckey(o["cond"]).startswith("Eq(") and ckey(o["cond"]).endswith(",0xffffffff)")]
         bad = [o["assign"] for o in adds if any(o["assign"][1] in e for e in eqs)]
         if adds or eqs:
             rep.check(not bad, "R14.1", "R14.1|overflow-guard|Stats::%s" % p_.split("::")[-1], "no counter that grows by more than one is protected only by `== u32::MAX`", WST,
                       "%s adds %s to a u32 counter and flushes only when the sum is exactly u32::MAX: the maximum is stepped over (wrap in release, panic in debug)" % (p_.split("::")[-1], [a[2] for a in bad]))
-    recs = _recs(ev, ST + "add_payload_size", [Sym("self"), Sym("x")])
+    recs = _recs(ev, ST + "add_payload_size", [Sym("self"), Sym("x")], follow=lambda c: c.startswith(ST))
     ca = "sym(call:core::num::<impl u32>::checked_add(sym(self.payload_size_seen),sym(cast(sym(x) as u32))))"
     asg = [(o["assign"], tuple(o["guard"])) for o in recs if "assign" in o]
     snd = [(o["args"][1], tuple(o["guard"])) for o in recs if "call" in o and o["call"].endswith("::send")]
@@ -236,12 +238,12 @@ def r141(ctx, rep, f, ev, cg, reach):
         and snd == [("InputStatType::PayloadSize(0=sym(self.payload_size_seen))", ("symc(isNone(%s))" % ca,))]
     rep.check(ok, "R14.1", "R14.1|counter|add_payload_size", "add_payload_size: checked sum; on overflow the accumulated size is sent and the counter restarts with the new size (no loss)", WST,
               "add_payload_size: assignments %s sends %s" % (asg, snd))
-    recs = _recs(ev, ST + "flush_stats", [Sym("self")])
+    recs = _recs(ev, ST + "flush_stats", [Sym("self")], follow=lambda c: c.startswith(ST))
     snd = sorted(o["args"][1] for o in recs if "call" in o and o["call"].endswith("::send") and not o["guard"])
     exp = sorted(["InputStatType::RDHSeen(0=sym(self.rdhs_seen))", "InputStatType::RDHFiltered(0=sym(self.rdhs_filtered))", "InputStatType::PayloadSize(0=sym(self.payload_size_seen))"])
     rep.check(snd == exp, "R14.1", "R14.1|flush|content", "flush_stats sends the three counters under their own variant", WST, "flush_stats sends %s" % snd)
     for m, fld, var in (("try_add_link", "unique_links_observed", "LinksObserved"), ("try_add_fee_id", "unique_feeids_observed", "FeeId")):
-        recs = _recs(ev, ST + m, [Sym("self"), Sym("x")])
+        recs = _recs(ev, ST + m, [Sym("self"), Sym("x")], follow=lambda c: c.startswith(ST))
         g = [ckey(o["cond"]) for o in recs if "cond" in o]
         calls = [(o["call"].split("::")[-1], o["args"], tuple(o["guard"])) for o in recs if "call" in o]
         ok = len(g) == 1 and g[0].startswith("symc(sym(Not(sym(call:core::slice::<impl [T]>::contains(") and ("self.%s" % fld) in g[0] and g[0].endswith(",sym(x))))))") \
@@ -318,7 +320,7 @@ def r142(ctx, rep, f, ev, cg, reach):
     rep.floor("R14.2-input-variants", len(ivars), 10, "InputStatType variants")
     rep.floor("R14.2-stat-variants", len(svars), 15, "StatType variants")
     fw = "fastpasta::forward_input_stats_to_stats_collector"
-    recs = [o for o in _recs(ev, fw, [Sym("rx"), Sym("tx")]) if "call" in o and o["call"].endswith("::send")] if fw in f.fns else []
+    recs = [o for o in _recs(ev, fw, [Sym("rx"), Sym("tx")], follow=lambda c: c.startswith("fastpasta::") and c.count("::") == 1) if "call" in o and o["call"].endswith("::send")] if fw in f.fns else []
     msg = "sym(payload(sym(call:flume::Receiver::<T>::recv(sym(rx))),Ok))"
     for v in ivars:
         mine = [o for o in recs if any(g == "symc(is%s(%s))" % (v, msg) for g in o["guard"])]
